@@ -21,6 +21,7 @@ Inductive op :=
 | Bool                        (* write_bool / read_bool *)
 | Flags (n : nat)             (* write_flags(data, [n flags])  / read_flags(data, num_flags=n) *)
 | Opt (body : op)             (* LITERAL_NONE tag for None, else body *)
+| OptElse (body els : op)     (* body, or LITERAL_NONE tag followed by els (SymbolTableNode: cross_ref or node) *)
 | Rep (body : op)             (* bare count, then count x body *)
 | Dyn                         (* writer only: obj.write(data), class chosen by the object *)
 | Nested (tags : list Z)      (* reader: tag = read_tag(data), dispatch to C.read for tag in tags *)
@@ -29,10 +30,10 @@ Inductive op :=
 Inductive value :=
 | VInt (z : Z) | VStr (s : bytes) | VBytes (s : bytes) | VFloat (f : bytes) | VBool (b : bool)
 | VFlags (l : list bool)
-| VNone | VSome (fields : list value)
+| VNone | VSome (fields : list value) | VElse (fields : list value)
 | VRep (rows : list (list value))
 | VObj (tag : Z) (fields : list value)
-| VExt (k : Z) (payload : list Z).
+| VExt (k : Z) (payload : list value).
 
 Fixpoint pack (l : list bool) : Z :=
   match l with
@@ -51,8 +52,9 @@ Fixpoint zmem (t : Z) (l : list Z) : bool :=
 Section Codec.
   Variable obj_write : Z -> list value -> option bytes.          (* body of class [tag], after its tag *)
   Variable obj_read : Z -> bytes -> option (list value * bytes).
-  Variable ext_write : Z -> list Z -> option bytes.
-  Variable ext_read : Z -> bytes -> option (list Z * bytes).
+  Variable ext_write : Z -> list value -> option bytes.
+  Variable ext_read : Z -> bytes -> option (list value * bytes).
+  Variable obj_fits : Z -> list value -> bool.                     (* deep well-formedness of a nested object *)
 
   Definition write_obj (v : value) : option bytes :=
     match v with
@@ -85,6 +87,14 @@ Section Codec.
         | VNone :: r => Some ([LITERAL_NONE], r)
         | VSome fs :: r =>
             match write_op body fs with Some (x, []) => Some (x, r) | _ => None end
+        | _ => None
+        end
+    | OptElse body els =>
+        match vs with
+        | VSome fs :: r =>
+            match write_op body fs with Some (x, []) => Some (x, r) | _ => None end
+        | VElse fs :: r =>
+            match write_op els fs with Some (y, []) => Some (LITERAL_NONE :: y, r) | _ => None end
         | _ => None
         end
     | Rep body =>
@@ -134,6 +144,12 @@ Section Codec.
                     else bind (read_op body bs) (fun '(fs, r') => Some ([VSome fs], r'))
         | [] => None
         end
+    | OptElse body els =>
+        match bs with
+        | b :: r => if b =? LITERAL_NONE then bind (read_op els r) (fun '(fs, r') => Some ([VElse fs], r'))
+                    else bind (read_op body bs) (fun '(fs, r') => Some ([VSome fs], r'))
+        | [] => None
+        end
     | Rep body =>
         bind (read_int bs) (fun '(n, r) =>
         bind (read_rows (read_op body) (Z.to_nat n) r) (fun '(rows, r') => Some ([VRep rows], r')))
@@ -155,6 +171,12 @@ Section Codec.
         | VSome fs :: r => match fits body fs with Some _ => Some r | None => None end
         | _ => None
         end
+    | OptElse body els =>
+        match vs with
+        | VSome fs :: r => match fits body fs with Some _ => Some r | None => None end
+        | VElse fs :: r => match fits els fs with Some _ => Some r | None => None end
+        | _ => None
+        end
     | Rep body =>
         match vs with
         | VRep rows :: r =>
@@ -165,7 +187,7 @@ Section Codec.
                   end) rows then Some r else None
         | _ => None
         end
-    | Nested tags => match vs with VObj t _ :: r => if zmem t tags then Some r else None | _ => None end
+    | Nested tags => match vs with VObj t fs :: r => if zmem t tags && obj_fits t fs then Some r else None | _ => None end
     | Dyn => None
     | _ => match vs with _ :: r => Some r | [] => None end
     end.
@@ -185,6 +207,7 @@ Fixpoint wf (o : op) : bool :=
   match o with
   | Seq a b => wf a && wf b
   | Opt body => wf body && leads body
+  | OptElse body els => wf body && leads body && wf els
   | Rep body => wf body
   | Dyn => false
   | _ => true
@@ -195,6 +218,7 @@ Fixpoint erase (o : op) : op :=
   match o with
   | Seq a b => Seq (erase a) (erase b)
   | Opt body => Opt (erase body)
+  | OptElse body els => OptElse (erase body) (erase els)
   | Rep body => Rep (erase body)
   | Nested _ => Dyn
   | _ => o
@@ -211,7 +235,7 @@ Fixpoint op_eqb (a b : op) : bool :=
   match a, b with
   | Skip, Skip | IntBare, IntBare | StrBare, StrBare | BytesBare, BytesBare
   | FloatBare, FloatBare | Bool, Bool | Dyn, Dyn => true
-  | Seq a1 a2, Seq b1 b2 => op_eqb a1 b1 && op_eqb a2 b2
+  | Seq a1 a2, Seq b1 b2 | OptElse a1 a2, OptElse b1 b2 => op_eqb a1 b1 && op_eqb a2 b2
   | Tag s, Tag t => s =? t
   | Flags m, Flags n => Nat.eqb m n
   | Opt x, Opt y | Rep x, Rep y => op_eqb x y
